@@ -27,8 +27,8 @@ ENGINE = {
                 gated_collab=0.3, title='nothing left running'),
     'C14': dict(profiles=ALL, retry=0.3, modes=True, managers=[1, 1, 2], stores=['none', 'record'], gated_collab=0.5,
                 title='lifecycle events'),
-    'C19': dict(profiles=[('plain', 3), ('switch', 3), ('oneof', 2), ('mixed', 3), ('rec', 1)], retry=0.15, modes=True,
-                managers=[0], stores=['record', 'writeonce'], gated_collab=0.3, title='artifact store'),
+    'C19': dict(profiles=[('plain', 2), ('switch', 4), ('oneof', 2), ('mixed', 4), ('rec', 1)], retry=0.15, modes=True,
+                managers=[0, 1, 1], stores=['record', 'writeonce'], gated_collab=0.5, title='artifact store'),
 }
 
 # Known findings: genuine defects of the pinned engine that are recorded, not repaired (see DESIGN 3.6 and
